@@ -277,8 +277,22 @@ def make_replay(pid, o, scratch, sel, kres, thash):
             tests, out = K.playback(scratch, h)
         except Exception as e:  # noqa
             tests, out = [], f"playback failed: {e}"
-        if tests:
-            vals, dec = tests[0]
+        # pick the generated test that belongs to this obligation (covers also generate tests)
+        pick = None
+        for tst in tests:
+            if tst[2] == "cover":
+                continue
+            if tst[3] == o.id or (o.id.endswith(".panic_free") and not K.ID_RE.match(tst[3])):
+                pick = tst
+                break
+        if pick is None:
+            for tst in tests:
+                if tst[2] != "cover":
+                    pick = tst
+                    break
+        if pick:
+            vals, dec = pick[0], pick[1]
+            rec["playback_check"] = pick[3]
             rec["values"] = vals
             rec["decoded"] = dec
             has_input = True
